@@ -475,19 +475,19 @@ pub fn c08_positions(c: &FuCtx, rec: &mut Rec) {
                     rec.viol("C08_create_effect", format!("{} new positions", new_positions.len()));
                 } else {
                     let p = new_positions[0];
-                    if p.receiver != owner || p.lp_asset.amount.u128() != *amount || p.lp_asset.denom != c.pre.lps[*lp] || p.unlocking_duration != *dur || !p.open || p.expiring_at.is_some() {
+                    if p.receiver != owner || p.lp_asset.amount.u128() != *amount || p.lp_asset.denom != c.pre.lp_denom(*lp) || p.unlocking_duration != *dur || !p.open || p.expiring_at.is_some() {
                         rec.viol("C08_create_effect", format!("{:?} produced {:?}", c.op, p));
                     }
                 }
-                if c.delta(FM, &c.pre.lps[*lp]) != *amount as i128 || c.delta(*u, &c.pre.lps[*lp]) != -(*amount as i128) {
-                    rec.viol("C08_create_custody", format!("farm manager delta {} sender delta {}", c.delta(FM, &c.pre.lps[*lp]), c.delta(*u, &c.pre.lps[*lp])));
+                if c.delta(FM, &c.pre.lp_denom(*lp)) != *amount as i128 || c.delta(*u, &c.pre.lp_denom(*lp)) != -(*amount as i128) {
+                    rec.viol("C08_create_custody", format!("farm manager delta {} sender delta {}", c.delta(FM, &c.pre.lp_denom(*lp)), c.delta(*u, &c.pre.lp_denom(*lp))));
                 }
                 others_untouched(c, &["*new*".to_string()].into_iter().collect(), rec);
             }
         }
         FuOp::ProvideLock { u, lp, lock_id, .. } | FuOp::ProvideLockSingle { u, lp, lock_id, .. } => {
             if ok {
-                let lpd = &c.pre.lps[*lp];
+                let lpd = &c.pre.lp_denom(*lp);
                 let minted = c.delta(FM, lpd);
                 let mut touched = BTreeSet::new();
                 let target = lock_id.as_ref().and_then(|i| c.pre.pos(i));
@@ -874,7 +874,7 @@ pub fn jobs_c05(tier: Tier) -> Vec<Job> {
     // issues an LP token with the same symbol: old positions stay backed by the old token
     let mut redeployed = FuChecker::new("c05-fu-redeployed-pm", vec!["F21"], FAlpha::Positions, vec![c05_custody]);
     redeployed.state_oracles = vec![c05_drain];
-    v.push(explore_job(redeployed, tier.pick(2, 3), Caps::default()));
+    v.push(explore_job(redeployed, tier.pick(3, 4), Caps::default()));
     // farm funding under the other fee configurations (zero fee, fee in the reward denom): every fund shape of the farm alphabet
     for (i, fee) in [("uusdc", 0u128), ("uom", 0), ("uusdc", 1000)].into_iter().enumerate() {
         let mut c = FuChecker::new(&format!("c05-fu-farms-feecfg{}", i + 1), vec!["F0", "F2"], FAlpha::Farms, vec![c05_custody]);
@@ -906,7 +906,7 @@ pub fn jobs_c08(tier: Tier) -> Vec<Job> {
     let full = FuChecker::new("c08-fu-full", vec!["F0", "F2", "F4", "F5"], FAlpha::Full, vec![c08_positions]);
     let p = FuChecker::new("c08-fu-positions", vec!["F1", "F4", "F5", "F7"], FAlpha::Positions, vec![c08_positions, fu_defaults]);
     let redeployed = FuChecker::new("c08-fu-redeployed-pm", vec!["F21"], FAlpha::Positions, vec![c08_positions]);
-    vec![explore_job(full, tier.pick(2, 3), Caps::default()), explore_job(p, tier.pick(3, 4), Caps::default()), explore_job(redeployed, tier.pick(2, 3), Caps::default())]
+    vec![explore_job(full, tier.pick(2, 3), Caps::default()), explore_job(p, tier.pick(3, 4), Caps::default()), explore_job(redeployed, tier.pick(3, 4), Caps::default())]
 }
 pub fn jobs_c10_explore(tier: Tier) -> Vec<Job> {
     let p = FuChecker::new("c10-fu-positions", vec!["F0", "F1", "F4", "F7"], FAlpha::Positions, vec![c10_weights]);
